@@ -90,7 +90,9 @@ def config(rng):
     elif rng.random() < 0.2 and flavour not in ("userff", "usernames"):
         # chain-topology stressors: blank / repeated chain ids, hidden chain ends (OXT mid-chain, no TER) - the code
         # has to invent chain ids; --keep-chain makes them visible
-        w = {"w": "topostress", "seed": rng.randrange(10 ** 6), "ff": ff, "p": {}}
+        # (mostly the schemes in which the code must invent chain ids - state that could leak between runs)
+        w = {"w": "topostress", "seed": rng.randrange(10 ** 6), "ff": ff,
+             "p": {"scheme": rng.choice(["blank_ter", "merged_oxt", "repeated_oxt", "blank_ter", "merged_oxt", None])}}
         if "--keep-chain" not in opts and opts != ["--clean"] and rng.random() < 0.7:
             opts = opts + ["--keep-chain"]
     else:
